@@ -216,34 +216,34 @@ theorem expand_congr {M₁ M₂ : RModel} (h3 : odeRhs M₁ = odeRhs M₂) : ∀
     | none => rfl
     | some r => exact expand_congr h3 F r
 
-theorem getValueAux_congr {M₁ M₂ : RModel} (h1 : isState M₁ = isState M₂) (h2 : varRhs M₁ = varRhs M₂)
+theorem getValueAux_congr (fn : Interp) {M₁ M₂ : RModel} (h1 : isState M₁ = isState M₂) (h2 : varRhs M₁ = varRhs M₂)
     (h3 : odeRhs M₁ = odeRhs M₂) (h4 : freeVar M₁ = freeVar M₂) (h5 : initOf M₁.st = initOf M₂.st) (F : Nat) :
-    ∀ (f : Nat), getValueAux M₁ F f = getValueAux M₂ F f
+    ∀ (f : Nat), getValueAux fn M₁ F f = getValueAux fn M₂ F f
   | 0 => rfl
   | f + 1 => by
     funext v memo
-    simp only [getValueAux, h1, h2, h4, h5, expand_congr h3, getValueAux_congr h1 h2 h3 h4 h5 F f]
+    simp only [getValueAux, h1, h2, h4, h5, expand_congr h3, getValueAux_congr fn h1 h2 h3 h4 h5 F f]
 
 /-- the answers depend only on: the variable list, the two definition maps, initial values, `order_added`, the graph -/
-theorem roles_congr {s₁ s₂ : MState} (rhs : Nat → Expr) (hl : s₁.live = s₂.live) (hvd : s₁.varDef = s₂.varDef)
+theorem roles_congr (fn : Interp) {s₁ s₂ : MState} (rhs : Nat → Expr) (hl : s₁.live = s₂.live) (hvd : s₁.varDef = s₂.varDef)
     (hod : s₁.odeDef = s₂.odeDef) (hinit : initOf s₁ = initOf s₂) (hord : orderOf s₁ = orderOf s₂)
-    (hg : (queryGraph s₁).2 = (queryGraph s₂).2) : roles ⟨s₁, rhs⟩ = roles ⟨s₂, rhs⟩ := by
+    (hg : (queryGraph s₁).2 = (queryGraph s₂).2) : roles fn ⟨s₁, rhs⟩ = roles fn ⟨s₂, rhs⟩ := by
   have h1 : isState ⟨s₁, rhs⟩ = isState ⟨s₂, rhs⟩ := by funext v; simp only [isState, hod]
   have h2 : varRhs ⟨s₁, rhs⟩ = varRhs ⟨s₂, rhs⟩ := by funext v; simp only [varRhs, hvd]
   have h3 : odeRhs ⟨s₁, rhs⟩ = odeRhs ⟨s₂, rhs⟩ := by funext s t; simp only [odeRhs, hod]
   have h4 : freeVar ⟨s₁, rhs⟩ = freeVar ⟨s₂, rhs⟩ := by simp only [freeVar, getFreeVariable, hod]
   have hm : memo0 ⟨s₁, rhs⟩ = memo0 ⟨s₂, rhs⟩ := by simp only [memo0, h4, hod, hinit]
-  have hv : getValue ⟨s₁, rhs⟩ = getValue ⟨s₂, rhs⟩ := by
+  have hv : getValue fn ⟨s₁, rhs⟩ = getValue fn ⟨s₂, rhs⟩ := by
     funext v
-    simp only [getValue, getValueFuel, hl, hm, getValueAux_congr h1 h2 h3 h4 hinit]
+    simp only [getValue, getValueFuel, hl, hm, getValueAux_congr fn h1 h2 h3 h4 hinit]
   have hc : isConstant ⟨s₁, rhs⟩ = isConstant ⟨s₂, rhs⟩ := by funext v; simp only [isConstant, h2]
   simp only [roles, stateVars, getStateVariables, stateKeys, derivatives, derivedQuantities, h1, hc, h4, hv,
     hod, hord, hg]
 
 /-- same variables and equations ⇒ same answers (the C08 invariant makes the maps and the cached graph functions of the
     content) -/
-theorem roles_of_content {s₁ s₂ : MState} (i₁ : Inv s₁) (i₂ : Inv s₂) (hc : content s₁ = content s₂)
-    (rhs : Nat → Expr) : roles ⟨s₁, rhs⟩ = roles ⟨s₂, rhs⟩ := by
+theorem roles_of_content (fn : Interp) {s₁ s₂ : MState} (i₁ : Inv s₁) (i₂ : Inv s₂) (hc : content s₁ = content s₂)
+    (rhs : Nat → Expr) : roles fn ⟨s₁, rhs⟩ = roles fn ⟨s₂, rhs⟩ := by
   have hheap : s₁.heap.map (fun v => { v with type := none }) = s₂.heap.map (fun v => { v with type := none }) :=
     congrArg Content.heap hc
   have hlive : s₁.live = s₂.live := congrArg Content.live hc
@@ -253,7 +253,7 @@ theorem roles_of_content {s₁ s₂ : MState} (i₁ : Inv s₁) (i₂ : Inv s₂
     have := congrArg (fun h => (h[i]?).map regFields) hheap
     simp only [List.getElem?_map] at this
     cases h1 : s₁.heap[i]? <;> cases h2 : s₂.heap[i]? <;> simp_all [regFields]
-  refine roles_congr rhs hlive ?_ ?_ hsame.initOf hsame.orderOf ?_
+  refine roles_congr fn rhs hlive ?_ ?_ hsame.initOf hsame.orderOf ?_
   · rw [i₁.eq.varDef, i₂.eq.varDef, heqs]
   · rw [i₁.eq.odeDef, i₂.eq.odeDef, heqs]
   · rw [queryGraph_snd i₁.cache, queryGraph_snd i₂.cache, heqs, hsame.names]
